@@ -35,15 +35,15 @@ Proof. exact Layout.max_block_cnt_is_1024. Qed.
 Print Assumptions c16_max_block_cnt.
 
 (* ---------------------------------------------------------------------------------------------- *)
-(* REGENERATED FROM THE SOURCE ON EVERY RUN (tools/gen -> Generated.g_code; Decisions.v): the decisions the model
+(* REGENERATED FROM THE SOURCE ON EVERY RUN (tools/gen -> Generated.g_code; DecBase.v, Dec*.v): the decisions the model
    takes at these points are the evaluations of the conditions the Go source has there, for all values of their
    variables. *)
-From GK Require Import GExpr Generated Decisions.
+From GK Require Import GExpr Generated DecBase DecBlocks.
 From Coq Require Import String.
 
 (* determineBlocks: the WHOLE translated body of the Go function, executed, is Blocks.determine_blocks *)
 Theorem c16_determine_blocks_is_source : forall cnt : nat,
   gexec 50 (db_env (Z.of_nat cnt)) (body "Collection.determineBlocks") =
   RRet [Z.of_nat (fst (determine_blocks cnt)); Z.of_nat (snd (determine_blocks cnt)); 0%Z].
-Proof. exact Decisions.determine_blocks_is_source. Qed.
+Proof. exact DecBlocks.determine_blocks_is_source. Qed.
 Print Assumptions c16_determine_blocks_is_source.
